@@ -62,7 +62,7 @@ def gen_case(rnd):
     rules = []
     for i in range(nr):
         dets = gen_detections(rnd, "r", rnd.randint(1, 3))
-        d = {"title": f"rule{i}", "name": f"rname{i}", "id": str(uuid.UUID(int=0xabcdef00 + i)), "logsource": copy.deepcopy(rnd.choice(LOGSOURCES)),
+        d = {"title": f"rule{i}", "name": f"rname{i}", "id": str(uuid.UUID(int=0xabcdef00 + i)), "logsource": dict(copy.deepcopy(rnd.choice(LOGSOURCES)), **({"definition": "rule side note"} if rnd.random() < 0.15 else {})),
              "detection": {**dets, "condition": gen_cond(rnd, list(dets), False)}}
         if rnd.random() < 0.15:
             d["detection"]["condition"] = [d["detection"]["condition"], gen_cond(rnd, list(dets), False)]
@@ -86,7 +86,10 @@ def gen_case(rnd):
             elif sp < 0.4: rl = [x.replace("-", "") for x in rl]
         elif how < 0.9: rl = "rname0"
         else: rl = ["nomatch", str(uuid.UUID(int=0x9999))]
-        filters.append({"title": f"filter{k}", "logsource": copy.deepcopy(rnd.choice(LOGSOURCES)),
+        fls = copy.deepcopy(rnd.choice(LOGSOURCES))
+        if rnd.random() < 0.3:
+            fls["definition"] = "a note about the log source: it does not take part in matching"
+        filters.append({"title": f"filter{k}" if rnd.random() < 0.6 else "filter", "logsource": fls,      # several filters may share a title
                         "filter": {"rules": rl, **dets, "condition": gen_cond(rnd, list(dets), True)}})
     return {"rules": rules, "filters": filters}
 
